@@ -1,3 +1,62 @@
+/-
+  Props/C02Conv — C02 / C07 for what `solve()` REALLY returns: a tolerance-converged state, not an exact steady
+  state.  `Props/C02Table` proves the per-row power identity and the whole-table balance for EXACT steady states
+  (`Steady`); `Props/C01Conv` proves that every returned row is within `atol + vtol·|·|` / `atol + itol·|·|` of its
+  laws.  This file bounds the DEFECT of the power identity and of the balance on any state on which the exit test
+  of `_solve` fired, by an explicit expression in `atol, vtol, itol` and the magnitudes in the table.
+
+  Setting.  `ConvAt s cfg ph v i st v' st'`: `v' = fwdProp v i st` (one more forward sweep), the exit test
+  `converged cfg v v' i (backProp v' i st)` fired, and three invariants every iterate of the solver has: currents
+  ≥ 0, a flag is only set on a 0 V output, a Source is only flagged when 0 V / inactive.  `solvePhase_convAt`:
+  every `s.solvePhase cfg ph = .ok r` IS such a state (well-formed tree, `Phys`, non-negative phase values; if
+  the exit test fired on the very first sweep — `r.iters = 1`, the INITIAL state is returned — the flag condition
+  must hold for the initial state, where it can fail: a Converter directly under a switched-off Source).
+
+  Tolerances, in terms of the RETURNED cell (`close_ref_bound`; needs `0 ≤ vtol, itol < 1`: `TolOK`):
+      tolI(a) = (atol + itol·|a|)/(1 − itol)        tolV(y) = (atol + vtol·|y|)/(1 − vtol)
+      rowTol cfg W Vout Iin Iout = W·tolI(Iin) + |Iout|·tolV(Vout)                 (`def`, to be mirrored by the harness)
+      rowTolRow cfg r  = 0 for a LOAD row, else rowTol with W = |Vin| (SOURCE row: W = |Vin − Vout|) from the row's cells.
+  So the CURRENT tolerance multiplies `|Vin|` (a SOURCE: the internal drop `Vin − Vout = rs·Iout`), the VOLTAGE
+  tolerance multiplies `Iout`.
+
+  1. Per row (`pl_delta`, `local_defect*`, then the rows of `compRow`):
+       `row_power_defect_bound`                 fed single-supply non-load rows — RLoss, VLoss, Converter, LinReg, PSwitch,
+                                                Rectifier (diode and MOSFET), awake or asleep, live or dead supply:
+            |Power − Loss − |Vout|·Iout| ≤ rowTol cfg |Vin| Vout Iin Iout + |Vin|·lawShift
+         and the same bound for the "through" defect |Vin|·Iin − Loss − |Vout|·Iout (what the balance needs);
+       `row_power_defect_bound_source_partial`  SOURCE rows (F01 excluded), W = Vin − Vout = rs·Iout;
+       `row_power_defect_bound_mux`             PMux rows, Vin = the selected input (0 V when none is live).
+     `lawShift n = |backAt v' n − backAt v n|` is how far the component's CURRENT LAW moves when the voltages are
+     swept once more: the exit test compares `Iin` with the law at the once-more-swept supply `Vin'`, the row books
+     power with its own `Vin`.  It is 0 when the law does not read the supply voltage (`CurrVinFree`:
+     RLoss, VLoss, diode Rectifier always; LinReg / PSwitch / PMux / MOSFET Rectifier with a constant or 1-D `ig` —
+     `currVinFree_of_par`, `lawShift_eq_zero`); for a Converter with constant / 1-D efficiency
+     `|Vin|·lawShift ≤ Iin'·|Vin − Vin'|` (`converter_shift`, `shiftW_converter_bound`).  For 2-D tables it is
+     NOT bounded by the tolerances alone (that needs a Lipschitz constant of the table): it stays in the bound.
+  2. Whole table (`system_balance_resid`: the balance defect of ANY voltage-linked table is Σ through-defects +
+     Σ link defects; `node_through_bound`; `table_sums_eq`):
+       `table_balance_defect_bound_mux_partial`  (PMux included),  `table_balance_defect_bound_partial` (no PMux),
+       `solve_table_balance_defect_bound_partial` (stated on `s.solvePhase cfg ph = .ok r`):
+            |Σ_SOURCE Power − Σ_LOAD (Power+Loss) − Σ_other Loss| ≤ Σ_rows rowTolRow + Σ_nodes shiftW + Σ_nodes link
+     Link terms.  `Vin(child) = Vout(parent)` is exact (same vector): no voltage link term.  `Iout(parent) =
+     Σ Iin(children)` is exact by row assembly for every fed row (`linkM_eq_zero`) EXCEPT
+       * a SOURCE row: its `Iout` cell is the source's own current cell `i[n]`, not the children's sum; the link
+         term `|Vout|·|Iout − Σ Iin(children)|` (`srcLink`) is ≤ `|Vout|·tolI(Iout)` for a live source
+         (`srcLink_bound`) — so the answer to "are there link terms?" is: yes, exactly one per source;
+       * a row feeding a PMux WITHOUT live input: `_child_curr` counts that mux's current cell towards EVERY input
+         (`share_split`, `linkM_fed`); the cell is ≤ `tolI + lawShift` (`dead_mux_current_bound`), 0 when exact.
+  3. `balance_defect_small` (`atol = 0`, `vtol = itol = ε`, no PMux, all current laws `CurrVinFree`):
+            |defect| ≤ ε/(1 − ε) · Σ_rows rowScale,   rowScale = |Vin·Iin| + |Vout·Iout| for a fed non-load row,
+            |Vin − Vout|·|Iout| + 2·|Vout·Iout| for a SOURCE row, 0 for a LOAD row;
+     `balance_defect_small_conv` allows Converters with constant / 1-D efficiency: ε/(1 − ε)² · Σ rowScaleC.
+  4. `rowTol`, `rowTolRow`, `rowScale`, `rowScaleC`, `srcLink`: the executable formulas (over a field).
+
+  `_partial`: the hypothesis `CompsOK` (finding F01: negative Source with series resistance; Converter with
+  `vo = 0`) is inherited from Props/C02Table; without it the bound fails already on an exact steady state with all
+  tolerances 0 (`table_balance_defect_bound_full_fails`).  NOT covered: the Subsystem / System-total rows (C07's
+  grouping by Domain — they are sums of these rows), a tolerance-only bound for 2-D-table kinds (see lawShift),
+  and liveness (C03).
+-/
 import SysLoss.Props.C02Table
 import SysLoss.Props.C01Conv
 import Mathlib.Tactic.NormNum
@@ -889,7 +948,7 @@ theorem table_sums_eq (s : SSys α) (hwf : TreeWF s) (ph : String) (ta : α) (v 
     `Vin(child) = Vout(parent)` holds exactly (same vector), so there is no voltage link term; the current
     link `Iout(parent) = Σ Iin(children)` holds exactly by row assembly for every fed row that feeds no PMux
     without live input (`linkM_eq_zero`), but NOT for a SOURCE row: its `Iout` cell is the source's own current
-    cell, which the exit test only ties to the children's sum within `itol` (`linkM_source_live`). -/
+    cell, which the exit test only ties to the children's sum within `itol` (`srcLink_bound`). -/
 theorem table_balance_defect_bound_mux_partial (s : SSys α) (hwf : TreeWF s) (hok : CompsOK s) (cfg : Cfg α)
     (htol : TolOK cfg) (ph : String) (v i : Vec α) (st : St) (v' : Vec α) (st' : St)
     (hcv : ConvAt s cfg ph v i st v' st') (ta : α) :
@@ -1151,36 +1210,45 @@ theorem sget_ofList_map (f : Nat → List Bool) (k m : Nat) :
   · simp [Array.getD_eq_getD_getElem?, h]
   · simp [Array.getD_eq_getD_getElem?, h]
 
-/-- the initial state has the invariants, given accepted parameters — except that the initial flag of a
-    non-root is its first PARENT's flag, so "a flag is only set on a 0 V output" is a hypothesis there
-    (it fails for e.g. a Converter under a switched-off Source; see the header) -/
+/-- the initial state has non-negative currents and only flags sources that are off … -/
+theorem init_inn (s : SSys α) (hphys : ∀ n nd, s.node? n = some nd → nd.comp.Phys) (ph : String) :
+    ∀ m, 0 ≤ vget (s.init ph).2.1 m := by
+  intro m
+  unfold SSys.init
+  simp only
+  rw [vget_ofList_map]
+  split_ifs
+  · cases hnd : s.node? m with
+    | none => exact le_refl _
+    | some nd => exact initCurr_nonneg nd.comp (hphys m nd hnd) _
+  · exact le_refl _
+
+theorem init_srcFlag (s : SSys α) (ph : String) :
+    ∀ n nd, s.node? n = some nd → nd.parents = [] → sget (s.init ph).2.2 n = true →
+      nd.comp.initOff (nd.pconf.ctx ph) = true := by
+  intro n nd hnd hpar h
+  unfold SSys.init at h
+  simp only at h
+  rw [sget_ofList_map] at h
+  split_ifs at h with hlt
+  simp only [hnd, hpar, List.isEmpty_nil, if_true, List.headD_cons] at h
+  exact h
+
+/-- … but the initial flag of a non-root is its first PARENT's flag, so "a flag is only set on a 0 V output" can
+    fail there (a Converter / LinReg directly under a Source that is 0 V or inactive in the phase starts at its
+    `vo` with the flag set).  It holds from the first sweep on (`step_inv`). -/
 theorem init_inv (s : SSys α) (hphys : ∀ n nd, s.node? n = some nd → nd.comp.Phys) (ph : String)
     (hinit : ∀ n, sget (s.init ph).2.2 n = true → vget (s.init ph).1 n = 0) :
-    IterInv s ph (s.init ph).1 (s.init ph).2.1 (s.init ph).2.2 where
-  inn := by
-    intro m
-    unfold SSys.init
-    simp only
-    rw [vget_ofList_map]
-    split_ifs
-    · cases hnd : s.node? m with
-      | none => exact le_refl _
-      | some nd => exact initCurr_nonneg nd.comp (hphys m nd hnd) _
-    · exact le_refl _
-  flag := hinit
-  srcFlag := by
-    intro n nd hnd hpar h
-    unfold SSys.init at h
-    simp only at h
-    rw [sget_ofList_map] at h
-    split_ifs at h with hlt
-    simp only [hnd, hpar, List.isEmpty_nil, if_true, List.headD_cons] at h
-    exact h
+    IterInv s ph (s.init ph).1 (s.init ph).2.1 (s.init ph).2.2 :=
+  ⟨init_inn s hphys ph, hinit, init_srcFlag s ph⟩
 
-/-- one sweep keeps the invariants -/
+/-- one sweep keeps the invariants — and ESTABLISHES "a flag is only set on a 0 V output", whatever the flags
+    were before -/
 theorem step_inv (s : SSys α) (hwf : TreeWF s) (hphys : ∀ n nd, s.node? n = some nd → nd.comp.Phys)
     (ph : String) (hpv : ∀ n nd, s.node? n = some nd → PhaseValOK (nd.pconf.ctx ph))
-    (v i : Vec α) (st : St) (v' : Vec α) (st' : St) (hinv : IterInv s ph v i st)
+    (v i : Vec α) (st : St) (v' : Vec α) (st' : St) (hinn : ∀ m, 0 ≤ vget i m)
+    (hsf : ∀ n nd, s.node? n = some nd → nd.parents = [] → sget st n = true →
+      nd.comp.initOff (nd.pconf.ctx ph) = true)
     (hf : s.fwdProp ph v i st = .ok (v', st')) :
     IterInv s ph v' (s.backProp ph v' i st) st' := by
   obtain ⟨_, _, hpt, hout⟩ := C16.fwdProp_pointwise s ph v i st v' st' hf
@@ -1205,7 +1273,7 @@ theorem step_inv (s : SSys α) (hwf : TreeWF s) (hphys : ∀ n nd, s.node? n = s
       unfold SSys.backAt SSys.lawArgs
       simp only [hnd]
       apply curr_nonneg nd.comp (hphys m nd hnd) _ _ _ _ (hpv m nd hnd)
-      exact ioOf_nonneg s nd m hnd v' i st hinv.inn
+      exact ioOf_nonneg s nd m hnd v' i st hinn
     · rw [k3 m hm]
   · intro n h
     obtain ⟨hn, x, e1, e2⟩ := hfl n h
@@ -1224,7 +1292,7 @@ theorem step_inv (s : SSys α) (hwf : TreeWF s) (hphys : ∀ n nd, s.node? n = s
     rcases source_flag_spec nd.comp hsrc _ _ _ _ _ e1 with h1 | h1 | h1
     · simp [h1]
     · simp [h1]
-    · have := hinv.srcFlag n nd hnd hpar h1
+    · have := hsf n nd hnd hpar h1
       unfold Comp.initOff at this
       simpa [hsrc] using this
 
@@ -1252,15 +1320,16 @@ theorem loop_inv (s : SSys α) (hwf : TreeWF s) (hphys : ∀ n nd, s.node? n = s
         simp only [Except.ok.injEq] at h
         subst h; exact hinv
       · rw [if_neg hc] at h
-        exact ih _ _ _ _ _ (step_inv s hwf hphys ph hpv v i st v' st' hinv hf) h
+        exact ih _ _ _ _ _ (step_inv s hwf hphys ph hpv v i st v' st' hinv.inn hinv.srcFlag hf) h
 
 /-- **What `solve()` returns for a phase is a converged state in the sense of `ConvAt`.**
-    Hypotheses: well-formed tree, accepted parameters, non-negative phase values, and the flag condition on
-    the INITIAL state (see `init_inv`). -/
+    Hypotheses: well-formed tree, accepted parameters, non-negative phase values, and — only if the exit test
+    fired on the very first sweep (`iters = 1`: the INITIAL state is returned) — the flag condition on the
+    initial state (see `init_inv`). -/
 theorem solvePhase_convAt (s : SSys α) (hwf : TreeWF s) (hphys : ∀ n nd, s.node? n = some nd → nd.comp.Phys)
     (cfg : Cfg α) (ph : String) (hpv : ∀ n nd, s.node? n = some nd → PhaseValOK (nd.pconf.ctx ph))
-    (hinit : ∀ n, sget (s.init ph).2.2 n = true → vget (s.init ph).1 n = 0)
-    (r : SolveOut α) (h : s.solvePhase cfg ph = .ok r) :
+    (r : SolveOut α) (h : s.solvePhase cfg ph = .ok r)
+    (hinit : r.iters ≠ 1 ∨ ∀ n, sget (s.init ph).2.2 n = true → vget (s.init ph).1 n = 0) :
     ∃ v' st', ConvAt s cfg ph r.v r.i r.st v' st' := by
   obtain ⟨v', st', hf, hc⟩ := C03.solvePhase_sound s cfg ph r h
   obtain ⟨hs1, hs2⟩ := C01.solvePhase_sizes s cfg ph r h
@@ -1275,8 +1344,41 @@ theorem solvePhase_convAt (s : SSys α) (hwf : TreeWF s) (hphys : ∀ n nd, s.no
       simp only [pure, Except.pure, Except.ok.injEq] at h
       subst h
       unfold SSys.solveRaw at hr
-      exact loop_inv s hwf hphys cfg ph hpv _ _ _ _ _ _ (init_inv s hphys ph hinit) hr
+      rcases hinit with hit | hinit
+      · -- not the initial state: it went through at least one sweep
+        simp only at hr
+        unfold SSys.loop at hr
+        cases hf0 : s.fwdProp ph (s.init ph).1 (s.init ph).2.1 (s.init ph).2.2 with
+        | error e => rw [hf0] at hr; simp [bind, Except.bind] at hr
+        | ok p =>
+          obtain ⟨v1, st1⟩ := p
+          rw [hf0] at hr
+          simp only [bind, Except.bind] at hr
+          split_ifs at hr with hc0
+          · simp only [Except.ok.injEq] at hr
+            subst hr
+            exact absurd rfl hit
+          · exact loop_inv s hwf hphys cfg ph hpv _ _ _ _ _ _
+              (step_inv s hwf hphys ph hpv _ _ _ v1 st1 (init_inn s hphys ph) (init_srcFlag s ph) hf0) hr
+      · exact loop_inv s hwf hphys cfg ph hpv _ _ _ _ _ _ (init_inv s hphys ph hinit) hr
   exact ⟨v', st', hf, hs1, hs2, hc, hinv.inn, hinv.flag, hinv.srcFlag⟩
+
+/-- **`solve()`, whole-table form**: the component rows of any phase table `solve()` returns are off balance by
+    at most `Σ rowTolRow + Σ shiftW + Σ linkM` (with `v'` the once-more-swept voltages). -/
+theorem solve_table_balance_defect_bound_partial (s : SSys α) (hwf : TreeWF s) (hok : CompsOK s) (cfg : Cfg α)
+    (htol : TolOK cfg) (ph : String) (hpv : ∀ n nd, s.node? n = some nd → PhaseValOK (nd.pconf.ctx ph))
+    (r : SolveOut α) (h : s.solvePhase cfg ph = .ok r)
+    (hinit : r.iters ≠ 1 ∨ ∀ n, sget (s.init ph).2.2 n = true → vget (s.init ph).1 n = 0) (ta : α) :
+    ∃ v' st', s.fwdProp ph r.v r.i r.st = .ok (v', st') ∧
+      let rows := s.compRows ph ta r.v r.i r.st
+      |((rows.filter (·.typ == "SOURCE")).map rP).sum
+        - (((rows.filter (·.typ == "LOAD")).map fun r => rP r + rL r).sum
+            + ((rows.filter (·.typ != "LOAD")).map rL).sum)|
+      ≤ (rows.map (rowTolRow cfg)).sum + (s.topo.map (shiftW s ph r.v v' r.i r.st)).sum
+          + (s.topo.map (linkM s r.v r.i r.st)).sum := by
+  obtain ⟨v', st', hcv⟩ := solvePhase_convAt s hwf hok.phys cfg ph hpv r h hinit
+  exact ⟨v', st', hcv.fwd,
+    table_balance_defect_bound_mux_partial s hwf hok cfg htol ph r.v r.i r.st v' st' hcv ta⟩
 
 /-! ### 7. when the law shift vanishes; the relative defect for `atol = 0` -/
 
@@ -1340,6 +1442,35 @@ theorem backAt_root_nomux (s : SSys α) (hwf : TreeWF s) (hnm : NoMux s) (ph : S
   unfold SSys.backAt SSys.lawArgs Comp.solvInpCurr
   simp only [hnode, hpar, List.isEmpty_nil, if_true, hsrc]
   rw [e w i st, e w' i st]
+
+/-- **The link defect of a live SOURCE row is within the current tolerance** (no PMux): either
+    `|Vout|·|Iout − Σ Iin(children)| ≤ |Vout|·tolI(Iout)`, or the source is off under the once-more-swept state
+    (`v' n = 0`, so `|Vout| ≤ atol`). -/
+theorem srcLink_bound (s : SSys α) (hwf : TreeWF s) (hnm : NoMux s) (hok : CompsOK s) (cfg : Cfg α)
+    (htol : TolOK cfg) (ph : String) (v i : Vec α) (st : St) (v' : Vec α) (st' : St)
+    (hcv : ConvAt s cfg ph v i st v' st') (n : Nat) (hn : n ∈ s.topo) :
+    srcLink s v i n ≤ |vget v n| * tolI cfg (vget i n) ∨ vget v' n = 0 := by
+  obtain ⟨nd, hnd⟩ := node_of_mem s hwf n hn
+  obtain ⟨_, _, r3⟩ := cell_residuals s cfg htol ph v i st v' st' hcv n hn (hwf.bound n hn)
+  have htn : 0 ≤ tolI cfg (vget i n) := (abs_nonneg _).trans r3
+  unfold srcLink
+  rw [hnd]
+  simp only
+  by_cases hroot : nd.parents.isEmpty = true
+  · have hp : nd.parents = [] := List.isEmpty_iff.mp hroot
+    have hsrc := (hwf.rootSrc n nd hnd).mp hp
+    simp only [hroot, if_true]
+    obtain ⟨_, hdead⟩ := root_node_defect s cfg ph v i st v' st' hcv 0 n nd hn hnd hp hsrc (hok.phys n nd hnd)
+      (hok.f01 n nd hnd hsrc) 0
+    rw [backAt_root_nomux s hwf hnm ph v' v i st n nd hnd hp] at r3
+    rcases hdead with hl | ⟨_, hv0⟩
+    · left
+      rw [hl, ioOf_children s hwf hnm n nd hnd] at r3
+      exact mul_le_mul_of_nonneg_left r3 (abs_nonneg _)
+    · exact Or.inr hv0
+  · left
+    simp only [hroot, Bool.false_eq_true, if_false]
+    exact mul_nonneg (abs_nonneg _) htn
 
 /-- **No law shift** for a single-supply node without mux children whose current law is `CurrVinFree`, when the
     once-more-swept supply is dead iff the returned one is (always so for `atol = 0`: `zero_iff_of_atol0`). -/
@@ -1485,6 +1616,645 @@ theorem balance_defect_small (s : SSys α) (hwf : TreeWF s) (hnm : NoMux s) (hok
   unfold rowScale
   rw [mul_add]
   exact add_le_add (le_refl _) hlink
+
+/-! ### 7b. the law shift of a Converter with a `vi`-free efficiency; the relative defect with Converters -/
+
+/-- **Converter**: its current law `|vo·io/(eff·vi)|` does read the supply voltage, but when `eff` has no `vi`
+    axis the shift, weighted by `|Vin|`, is at most `Iin'·|Vin − Vin'|` (`Iin'` = the law at the once-more-swept
+    supply `Vin' ≠ 0`): the VOLTAGE tolerance of the supply multiplies the converter's input current. -/
+theorem converter_shift (c : Comp α) (hk : c.kind = .converter) (hc : c.Phys) (hpf : ParVinFree c.par)
+    (x x' b : α) (ph : PhaseCtx α) (fl : List Bool) (hb : 0 ≤ b) (hx' : x' ≠ 0 ∨ x = 0) :
+    |x| * |c.solvInpCurr [x'] b ph fl - c.solvInpCurr [x] b ph fl| ≤ c.solvInpCurr [x'] b ph fl * |x - x'| := by
+  have hld : c.kind.ctype ≠ .LOAD := by rw [hk]; decide
+  have hnn : 0 ≤ c.solvInpCurr [x'] b ph fl := curr_nonneg_nonload c hc hld _ _ hb _ _
+  by_cases hx : x = 0
+  · rw [hx, abs_zero, zero_mul]; exact mul_nonneg hnn (abs_nonneg _)
+  · have hx'' : x' ≠ 0 := by
+      rcases hx' with h | h
+      · exact h
+      · exact absurd h hx
+    have hz : isZ x = false := (isZ_false_iff _).mpr hx
+    have hz' : isZ x' = false := (isZ_false_iff _).mpr hx''
+    obtain ⟨he0, he1⟩ := hc.eff hk |b| |x|
+    have hee : c.par.interp |b| |x'| = c.par.interp |b| |x| := hpf _ _ _
+    unfold Comp.solvInpCurr at hnn ⊢
+    simp only [hk, List.headD_cons, hz, hz', Bool.false_or, nabs_eq_abs, hee] at hnn ⊢
+    generalize c.par.interp |b| |x| = e at *
+    split_ifs with h1 h2 h3
+    · simp
+    · simp only [sub_self, abs_zero, mul_zero]; exact mul_nonneg hc.iis (abs_nonneg _)
+    · simp only [sub_self, abs_zero, mul_zero]; exact mul_nonneg hc.iq (abs_nonneg _)
+    · have hxp : 0 < |x| := abs_pos.mpr hx
+      have hxp' : 0 < |x'| := abs_pos.mpr hx''
+      have f : ∀ t : α, t ≠ 0 → |c.vo * b / (t * e)| = |c.vo| * b / e / |t| := by
+        intro t ht
+        rw [abs_div, abs_mul, abs_mul, abs_of_nonneg hb, abs_of_pos he0]
+        field_simp
+      rw [f x' hx'', f x hx]
+      have hK : 0 ≤ |c.vo| * b / e := div_nonneg (mul_nonneg (abs_nonneg _) hb) he0.le
+      generalize |c.vo| * b / e = K at *
+      have e1 : K / |x'| - K / |x| = K / |x'| * ((|x| - |x'|) / |x|) := by field_simp
+      rw [e1, abs_mul, abs_of_nonneg (div_nonneg hK hxp'.le), abs_div, abs_abs]
+      have e2 : |x| * (K / |x'| * (|(|x| - |x'|)| / |x|)) = K / |x'| * |(|x| - |x'|)| := by field_simp
+      rw [e2]
+      exact mul_le_mul_of_nonneg_left (abs_abs_sub_abs_le_abs_sub x x') (div_nonneg hK hxp'.le)
+
+/-- … at node level (no PMux) -/
+theorem shiftW_converter_bound (s : SSys α) (hwf : TreeWF s) (hnm : NoMux s) (ph : String) (v v' i : Vec α) (st : St)
+    (hi : ∀ m, 0 ≤ vget i m)
+    (n p : Nat) (nd : SNode α) (hnode : s.node? n = some nd) (hpar : nd.parents = [p])
+    (hk : nd.comp.kind = .converter) (hc : nd.comp.Phys) (hpf : ParVinFree nd.comp.par)
+    (hz : vget v' p ≠ 0 ∨ vget v p = 0) :
+    |vget v p| * lawShift s ph v v' i st n ≤ s.backAt ph v' i st n * |vget v p - vget v' p| := by
+  unfold lawShift
+  rw [(C01.sweep_args_are_row s ph 0 v' i st n p nd hnode hpar "").2,
+    (C01.sweep_args_are_row s ph 0 v i st n p nd hnode hpar "").2]
+  have e := ioOf_children s hwf hnm n nd hnode
+  have hio := ioOf_nonneg s nd n hnode v i st hi
+  unfold ioOf at e hio
+  rw [e v' i st, ← e v i st]
+  exact converter_shift nd.comp hk hc hpf _ _ _ _ _ hio hz
+
+/-- the power scale of a row when Converters are allowed: a CONVERTER row adds `|Vin·Iin|` -/
+def rowScaleC (r : Row α) : α :=
+  rowScale r + (if r.typ == "CONVERTER" then |r.vin.getD 0| * |r.iin.getD 0| else 0)
+
+theorem kind_name_converter (k : Kind) : (k.ctype.name == "CONVERTER") = decide (k = .converter) := by
+  cases k <;> decide
+
+/-- **Relative balance defect, Converters allowed.**  As `balance_defect_small`, every non-load, non-source
+    component being `CurrVinFree` OR a Converter whose efficiency has no `vi` axis:
+      `|defect| ≤ ε/(1 − ε)² · Σ_rows rowScaleC`. -/
+theorem balance_defect_small_conv (s : SSys α) (hwf : TreeWF s) (hnm : NoMux s) (hok : CompsOK s)
+    (hfree : ∀ n nd, s.node? n = some nd → nd.comp.kind.ctype ≠ .LOAD → nd.comp.kind ≠ .source →
+      CurrVinFree nd.comp ∨ (nd.comp.kind = .converter ∧ ParVinFree nd.comp.par))
+    (cfg : Cfg α) (ε : α) (hε0 : 0 ≤ ε) (hε1 : ε < 1) (ha : cfg.atol = 0) (hv : cfg.vtol = ε) (hi : cfg.itol = ε)
+    (ph : String) (v i : Vec α) (st : St) (v' : Vec α) (st' : St)
+    (hcv : ConvAt s cfg ph v i st v' st') (ta : α) :
+    let rows := s.compRows ph ta v i st
+    |((rows.filter (·.typ == "SOURCE")).map rP).sum
+      - (((rows.filter (·.typ == "LOAD")).map fun r => rP r + rL r).sum
+          + ((rows.filter (·.typ != "LOAD")).map rL).sum)|
+    ≤ ε / (1 - ε) ^ 2 * (rows.map rowScaleC).sum := by
+  intro rows
+  have htol : TolOK cfg := ⟨by rw [hv]; exact hε0, by rw [hv]; exact hε1, by rw [hi]; exact hε0, by rw [hi]; exact hε1⟩
+  have h := table_balance_defect_bound_partial s hwf hnm hok cfg htol ph v i st v' st' hcv ta
+  refine h.trans ?_
+  have hR : ∀ g : Row α → α, DomainFree g →
+      ((s.compRows ph ta v i st).map g).sum = (s.topo.map fun n => g (s.compRow ph ta v i st n "").1).sum := by
+    intro g hg; rw [compRows_numeric g hg]
+  show ((s.compRows ph ta v i st).map (rowTolRow cfg)).sum + _ + _ ≤ _ * ((s.compRows ph ta v i st).map rowScaleC).sum
+  rw [hR _ (fun _ _ => rfl), hR rowScaleC (fun _ _ => rfl), ← List.sum_map_add, ← List.sum_map_add,
+    ← List.sum_map_mul_left]
+  apply List.sum_le_sum
+  intro n hn
+  obtain ⟨nd, hnd⟩ := node_of_mem s hwf n hn
+  have hlt := hwf.bound n hn
+  have h1e : 0 < 1 - ε := by linarith
+  have hq : 0 ≤ ε / (1 - ε) := div_nonneg hε0 h1e.le
+  have hq2 : ε / (1 - ε) ≤ ε / (1 - ε) ^ 2 := by
+    rw [div_le_div_iff₀ h1e (by positivity)]
+    nlinarith [mul_nonneg (mul_nonneg hε0 h1e.le) hε0]
+  have htyp := rowOf_typ s ph ta v i st n nd hnd
+  obtain ⟨b1, b2, b3⟩ := rowOf_basic s ph ta v i st n nd hnd
+  simp only [rowOf, cellsOf] at b1 b2 b3
+  have hzero : ∀ m, m ∈ s.topo → (vget v m = 0 ↔ vget v' m = 0) := by
+    intro m hm
+    obtain ⟨_, hvm, _⟩ := conv_cell s cfg ph v i st v' st' hcv m hm (hwf.bound m hm)
+    rw [ha, hv] at hvm
+    exact zero_iff_of_atol0 ε _ _ hε0 hε1 hvm
+  -- (1) the law shift: 0, or the Converter bound
+  have hshift : shiftW s ph v v' i st n
+      ≤ ε / (1 - ε) ^ 2 * (if ((s.compRow ph ta v i st n "").1.typ == "CONVERTER") = true
+          then |(s.compRow ph ta v i st n "").1.vin.getD 0| * |(s.compRow ph ta v i st n "").1.iin.getD 0| else 0) := by
+    have hnn : 0 ≤ ε / (1 - ε) ^ 2 * (if ((s.compRow ph ta v i st n "").1.typ == "CONVERTER") = true
+          then |(s.compRow ph ta v i st n "").1.vin.getD 0| * |(s.compRow ph ta v i st n "").1.iin.getD 0| else 0) := by
+      apply mul_nonneg (hq.trans hq2)
+      split_ifs <;> positivity
+    obtain ⟨T, hT⟩ : ∃ T, T = ε / (1 - ε) ^ 2 * (if ((s.compRow ph ta v i st n "").1.typ == "CONVERTER") = true
+          then |(s.compRow ph ta v i st n "").1.vin.getD 0| * |(s.compRow ph ta v i st n "").1.iin.getD 0| else 0) :=
+      ⟨_, rfl⟩
+    rw [← hT] at hnn ⊢
+    unfold shiftW
+    rw [hnd]
+    simp only
+    split_ifs with hl hroot
+    · exact hnn
+    · have hp : nd.parents = [] := List.isEmpty_iff.mp hroot
+      unfold lawShift
+      rw [backAt_root_nomux s hwf hnm ph v' v i st n nd hnd hp, sub_self, abs_zero, mul_zero]
+      exact hnn
+    · have hns : nd.comp.kind ≠ .source := by
+        intro e; exact hroot (by rw [(hwf.rootSrc n nd hnd).mpr e]; rfl)
+      obtain ⟨p, hp⟩ := single_parent s hwf n nd hnd (hnm n nd hnd) hns
+      have hpl : p ∈ s.topo := (hwf.live p).mpr (hwf.parLive n nd hnd p (by rw [hp]; simp))
+      have hvin : vinOf v st nd = vget v p := by unfold vinOf; simp [hnm n nd hnd, hp]
+      rw [hvin]
+      rcases hfree n nd hnd hl hns with hf | ⟨hk, hpf⟩
+      · rw [lawShift_eq_zero s hwf hnm ph v v' i st n p nd hnd hp hf (hzero p hpl), mul_zero]
+        exact hnn
+      · have hz : vget v' p ≠ 0 ∨ vget v p = 0 := by
+          by_cases h0 : vget v p = 0
+          · exact Or.inr h0
+          · exact Or.inl (fun e => h0 ((hzero p hpl).mpr e))
+        refine (shiftW_converter_bound s hwf hnm ph v v' i st hcv.inn n p nd hnd hp hk (hok.phys n nd hnd) hpf hz).trans ?_
+        obtain ⟨_, hvp, _⟩ := conv_cell s cfg ph v i st v' st' hcv p hpl (hwf.bound p hpl)
+        obtain ⟨_, _, hin⟩ := conv_cell s cfg ph v i st v' st' hcv n hn hlt
+        rw [ha, hv, zero_add] at hvp
+        rw [ha, hi, zero_add] at hin
+        have hld : nd.comp.kind.ctype ≠ .LOAD := hl
+        have ha' : 0 ≤ s.backAt ph v' i st n := by
+          rw [(C01.sweep_args_are_row s ph 0 v' i st n p nd hnd hp "").2]
+          apply curr_nonneg_nonload nd.comp (hok.phys n nd hnd) hld
+          have := ioOf_nonneg s nd n hnd v' i st hcv.inn
+          unfold ioOf at this
+          exact this
+        rw [abs_of_nonneg ha'] at hin
+        have hi0 := hcv.inn n
+        -- a' ≤ i n / (1 − ε), |v' p| ≤ |v p| / (1 − ε)
+        have ha1 : s.backAt ph v' i st n * (1 - ε) ≤ vget i n := by
+          have := neg_abs_le (vget i n - s.backAt ph v' i st n)
+          nlinarith
+        have hv1 : |vget v' p| * (1 - ε) ≤ |vget v p| := by
+          have h1 := abs_sub_abs_le_abs_sub (vget v' p) (vget v p)
+          rw [abs_sub_comm (vget v' p) (vget v p)] at h1
+          nlinarith
+        have hcell : (s.compRow ph ta v i st n "").1.vin.getD 0 = vget v p := by
+          have := congrArg Cells.vin (rowOf_fed s ph ta v i st n p nd hnd hp)
+          simpa [rowOf, cellsOf] using this
+        rw [hT, htyp, kind_name_converter, hk, hcell, b2]
+        simp only [decide_true, if_true]
+        rw [abs_of_nonneg hi0]
+        -- a'·|v p − v' p| ≤ a'·ε·|v' p| ≤ ε/(1−ε)²·|v p|·i n
+        have step1 : s.backAt ph v' i st n * |vget v p - vget v' p|
+            ≤ s.backAt ph v' i st n * (ε * |vget v' p|) := mul_le_mul_of_nonneg_left hvp ha'
+        refine step1.trans ?_
+        rw [div_mul_eq_mul_div, le_div_iff₀ (by positivity)]
+        have hvn := abs_nonneg (vget v' p)
+        have hprod : (s.backAt ph v' i st n * (1 - ε)) * (|vget v' p| * (1 - ε)) ≤ vget i n * |vget v p| :=
+          mul_le_mul ha1 hv1 (mul_nonneg hvn h1e.le) hi0
+        nlinarith
+  -- (2) the source link
+  have hlink : srcLink s v i n
+      ≤ ε / (1 - ε) * (if ((s.compRow ph ta v i st n "").1.typ == "SOURCE") = true
+          then |(s.compRow ph ta v i st n "").1.vout.getD 0| * |(s.compRow ph ta v i st n "").1.iout.getD 0| else 0) := by
+    unfold srcLink
+    rw [hnd, htyp, kind_name_source, b1, b3]
+    simp only
+    by_cases hroot : nd.parents.isEmpty = true
+    · have hp : nd.parents = [] := List.isEmpty_iff.mp hroot
+      have hsrc := (hwf.rootSrc n nd hnd).mp hp
+      simp only [hroot, if_true, hsrc, decide_true, ioutOf]
+      obtain ⟨_, _, r3⟩ := cell_residuals s cfg htol ph v i st v' st' hcv n hn hlt
+      rw [tolI_atol0 cfg ha, hi] at r3
+      obtain ⟨_, hdead⟩ := root_node_defect s cfg ph v i st v' st' hcv ta n nd hn hnd hp hsrc (hok.phys n nd hnd)
+        (hok.f01 n nd hnd hsrc) 0
+      rw [backAt_root_nomux s hwf hnm ph v' v i st n nd hnd hp] at r3
+      rcases hdead with hl | ⟨_, hv0⟩
+      · rw [hl, ioOf_children s hwf hnm n nd hnd] at r3
+        have := mul_le_mul_of_nonneg_left r3 (abs_nonneg (vget v n))
+        calc |vget v n| * |vget i n - (List.map (vget i) nd.childs).sum|
+            ≤ |vget v n| * (ε / (1 - ε) * |vget i n|) := this
+          _ = ε / (1 - ε) * (|vget v n| * |vget i n|) := by ring
+      · have : vget v n = 0 := (hzero n hn).mpr hv0
+        rw [this, abs_zero, zero_mul, zero_mul, mul_zero]
+    · simp only [hroot, Bool.false_eq_true, if_false]
+      have hns : nd.comp.kind ≠ .source := by
+        intro e; exact hroot (by rw [(hwf.rootSrc n nd hnd).mpr e]; rfl)
+      simp [hns]
+  -- (3) the row tolerance
+  have hrow : rowTolRow cfg (s.compRow ph ta v i st n "").1
+      = ε / (1 - ε) * (if ((s.compRow ph ta v i st n "").1.typ == "LOAD") = true then 0
+          else rowW (s.compRow ph ta v i st n "").1 * |(s.compRow ph ta v i st n "").1.iin.getD 0|
+            + |(s.compRow ph ta v i st n "").1.iout.getD 0| * |(s.compRow ph ta v i st n "").1.vout.getD 0|) := by
+    unfold rowTolRow rowTol
+    rw [tolI_atol0 cfg ha, tolV_atol0 cfg ha, hi, hv]
+    split_ifs
+    · rw [mul_zero]
+    · ring
+  rw [hrow]
+  unfold rowScaleC rowScale
+  rw [mul_add, mul_add]
+  have hA : 0 ≤ (if ((s.compRow ph ta v i st n "").1.typ == "LOAD") = true then (0 : α)
+          else rowW (s.compRow ph ta v i st n "").1 * |(s.compRow ph ta v i st n "").1.iin.getD 0|
+            + |(s.compRow ph ta v i st n "").1.iout.getD 0| * |(s.compRow ph ta v i st n "").1.vout.getD 0|) := by
+    unfold rowW; split_ifs <;> positivity
+  have hB : 0 ≤ (if ((s.compRow ph ta v i st n "").1.typ == "SOURCE") = true
+          then |(s.compRow ph ta v i st n "").1.vout.getD 0| * |(s.compRow ph ta v i st n "").1.iout.getD 0|
+          else (0 : α)) := by
+    split_ifs <;> positivity
+  have t1 := mul_le_mul_of_nonneg_right hq2 hA
+  have t2 := hlink.trans (mul_le_mul_of_nonneg_right hq2 hB)
+  linarith
+
+/-! ### 8. non-vacuity: Source(10 V, 1 Ω) → RLoss(1 Ω) → ILoad(1 A) over ℚ, `vtol = itol = 1/100`
+    exact steady state: 9 V / 8 V / 0 V, 1 A everywhere.  The state below is deliberately off — the RLoss
+    output reads 8.05 V, the source current 1.005 A — and still passes the exit test. -/
+
+section Examples
+
+def czSrc : Comp ℚ := { name := "S", kind := .source, par := .const 0, vo := 10, rs := 1 }
+def czRes : Comp ℚ := { name := "R", kind := .rloss, par := .const 0, rs := 1 }
+def czLd : Comp ℚ := { name := "L", kind := .iload, par := .const 0, ii := 1 }
+def czN0 : SNode ℚ := { comp := czSrc, parents := [], childs := [1], pconf := .names [] }
+def czN1 : SNode ℚ := { comp := czRes, parents := [0], childs := [2] }
+def czN2 : SNode ℚ := { comp := czLd, parents := [1], childs := [] }
+def czSys : SSys ℚ := { nodes := #[some czN0, some czN1, some czN2], topo := [0, 1, 2] }
+/-- numpy's `atol = 1e-8`, `vtol = itol = 1/100` -/
+def czCfg : Cfg ℚ := ⟨1/100000000, 1/100, 1/100, 100⟩
+/-- the same with `atol = 0` (for `balance_defect_small`) -/
+def czCfg0 : Cfg ℚ := ⟨0, 1/100, 1/100, 100⟩
+def czV : Vec ℚ := #[9, 161/20, 0]
+def czI : Vec ℚ := #[201/200, 1, 1]
+def czSt : St := #[[false], [false], [false]]
+/-- one more forward sweep gives the exact voltages -/
+def czV' : Vec ℚ := #[9, 8, 0]
+
+theorem czNodes (n : Nat) (nd : SNode ℚ) (h : czSys.node? n = some nd) :
+    (n = 0 ∧ nd = czN0) ∨ (n = 1 ∧ nd = czN1) ∨ (n = 2 ∧ nd = czN2) := by
+  rcases n with _ | _ | _ | n
+  · have h2 : czSys.node? 0 = some czN0 := rfl
+    rw [h2] at h; exact Or.inl ⟨rfl, (Option.some.inj h).symm⟩
+  · have h2 : czSys.node? 1 = some czN1 := rfl
+    rw [h2] at h; exact Or.inr (Or.inl ⟨rfl, (Option.some.inj h).symm⟩)
+  · have h2 : czSys.node? 2 = some czN2 := rfl
+    rw [h2] at h; exact Or.inr (Or.inr ⟨rfl, (Option.some.inj h).symm⟩)
+  · have h2 : czSys.node? (n + 3) = none := by simp [SSys.node?, czSys]
+    rw [h2] at h; cases h
+
+theorem czWF : TreeWF czSys where
+  nodup := by decide
+  live := by
+    intro n
+    rcases n with _ | _ | _ | n
+    · decide
+    · decide
+    · decide
+    · have h2 : czSys.node? (n + 3) = none := by simp [SSys.node?, czSys]
+      rw [h2]; simp [czSys]
+  bound := by decide
+  order := by
+    intro p c pd h hc
+    rcases czNodes p pd h with ⟨rfl, rfl⟩ | ⟨rfl, rfl⟩ | ⟨rfl, rfl⟩ <;>
+      simp [czN0, czN1, czN2] at hc <;> (try subst hc) <;> decide
+  parLive := by
+    intro n nd h p hp
+    rcases czNodes n nd h with ⟨rfl, rfl⟩ | ⟨rfl, rfl⟩ | ⟨rfl, rfl⟩ <;>
+      simp [czN0, czN1, czN2] at hp <;> subst hp <;> rfl
+  chLive := by
+    intro n nd h c hc
+    rcases czNodes n nd h with ⟨rfl, rfl⟩ | ⟨rfl, rfl⟩ | ⟨rfl, rfl⟩ <;>
+      simp [czN0, czN1, czN2] at hc <;> (try subst hc) <;> rfl
+  link := by
+    intro p c pd cd hp hc
+    rcases czNodes p pd hp with ⟨rfl, rfl⟩ | ⟨rfl, rfl⟩ | ⟨rfl, rfl⟩ <;>
+      rcases czNodes c cd hc with ⟨rfl, rfl⟩ | ⟨rfl, rfl⟩ | ⟨rfl, rfl⟩ <;>
+      simp [czN0, czN1, czN2]
+  chNodup := by
+    intro n nd h
+    rcases czNodes n nd h with ⟨rfl, rfl⟩ | ⟨rfl, rfl⟩ | ⟨rfl, rfl⟩ <;> simp [czN0, czN1, czN2]
+  parNodup := by
+    intro n nd h
+    rcases czNodes n nd h with ⟨rfl, rfl⟩ | ⟨rfl, rfl⟩ | ⟨rfl, rfl⟩ <;> simp [czN0, czN1, czN2]
+  rootSrc := by
+    intro n nd h
+    rcases czNodes n nd h with ⟨rfl, rfl⟩ | ⟨rfl, rfl⟩ | ⟨rfl, rfl⟩ <;>
+      simp [czN0, czN1, czN2, czSrc, czRes, czLd]
+  muxOnly := by
+    intro n nd h hl
+    rcases czNodes n nd h with ⟨rfl, rfl⟩ | ⟨rfl, rfl⟩ | ⟨rfl, rfl⟩ <;> simp [czN0, czN1, czN2] at hl
+  loadLeaf := by
+    intro n nd h hl
+    rcases czNodes n nd h with ⟨rfl, rfl⟩ | ⟨rfl, rfl⟩ | ⟨rfl, rfl⟩ <;>
+      simp [czN0, czN1, czN2, czSrc, czRes, czLd, Kind.ctype] at hl ⊢
+
+theorem czNoMux : NoMux czSys := by
+  intro n nd h
+  rcases czNodes n nd h with ⟨rfl, rfl⟩ | ⟨rfl, rfl⟩ | ⟨rfl, rfl⟩ <;>
+    simp [czN0, czN1, czN2, czSrc, czRes, czLd]
+
+theorem czOK : CompsOK czSys where
+  phys := by
+    intro n nd h
+    rcases czNodes n nd h with ⟨rfl, rfl⟩ | ⟨rfl, rfl⟩ | ⟨rfl, rfl⟩ <;>
+      constructor <;>
+      simp [czN0, czN1, czN2, czSrc, czRes, czLd, Comp.muxRs, Param.Nonneg, Param.interp]
+  f01 := by
+    intro n nd h hk
+    rcases czNodes n nd h with ⟨rfl, rfl⟩ | ⟨rfl, rfl⟩ | ⟨rfl, rfl⟩ <;>
+      simp [czN0, czN1, czN2, czSrc, czRes, czLd] at hk ⊢
+  conv := by
+    intro n nd h hk
+    rcases czNodes n nd h with ⟨rfl, rfl⟩ | ⟨rfl, rfl⟩ | ⟨rfl, rfl⟩ <;>
+      simp [czN0, czN1, czN2, czSrc, czRes, czLd] at hk
+
+theorem czPV : ∀ n nd, czSys.node? n = some nd → PhaseValOK (nd.pconf.ctx "") := by
+  intro n nd h
+  rcases czNodes n nd h with ⟨rfl, rfl⟩ | ⟨rfl, rfl⟩ | ⟨rfl, rfl⟩ <;>
+    simp [PhaseValOK, PhaseConf.ctx, czN0, czN1, czN2]
+
+theorem czTol : TolOK czCfg := ⟨by norm_num [czCfg], by norm_num [czCfg], by norm_num [czCfg], by norm_num [czCfg]⟩
+
+theorem czNoFlag (n : Nat) : sget czSt n = false := by
+  rcases n with _ | _ | _ | n
+  · rfl
+  · rfl
+  · rfl
+  · simp [sget, czSt]
+
+theorem czInn (m : Nat) : 0 ≤ vget czI m := by
+  rcases m with _ | _ | _ | m
+  · decide +kernel
+  · decide +kernel
+  · decide +kernel
+  · simp [vget, czI]
+
+/-- the off state passes the exit test (`|8.05 − 8| ≤ atol + 8/100`, `|1.005 − 1| ≤ atol + 1/100`) and has the
+    invariants: it is a converged state -/
+theorem czConv : ConvAt czSys czCfg "" czV czI czSt czV' czSt where
+  fwd := by decide +kernel
+  vsize := rfl
+  isize := rfl
+  exit := by decide +kernel
+  inn := czInn
+  flag := by intro n h; rw [czNoFlag n] at h; cases h
+  srcFlag := by intro n nd _ _ h; rw [czNoFlag n] at h; cases h
+
+theorem czConv0 : ConvAt czSys czCfg0 "" czV czI czSt czV' czSt where
+  fwd := by decide +kernel
+  vsize := rfl
+  isize := rfl
+  exit := by decide +kernel
+  inn := czInn
+  flag := by intro n h; rw [czNoFlag n] at h; cases h
+  srcFlag := by intro n nd _ _ h; rw [czNoFlag n] at h; cases h
+
+/-- it is NOT an exact steady state: the RLoss row shows 9 W − 1 W ≠ 8.05 V · 1 A -/
+example : czSys.fwdProp "" czV czI czSt ≠ .ok (czV, czSt) := by decide +kernel
+
+/-- `row_power_defect_bound` applies to the RLoss row … -/
+example := row_power_defect_bound czSys czCfg czTol "" czV czI czSt czV' czSt czConv 25 1 0 czN1 (by decide) rfl rfl
+  (by simp [czN1, czRes]) (by simp [czN1, czRes]) (by simp [czN1, czRes, Kind.ctype]) (czOK.phys 1 czN1 rfl)
+  (by simp [czN1, czRes]) ""
+/-- … whose cells are (Vin, Vout, Iin, Iout, Power, Loss) = (9, 8.05, 1, 1, 9, 1): defect −1/20, and the
+    tolerance `rowTol` is about 0.17 (no law shift for an RLoss) -/
+example : let r := (czSys.compRow "" 25 czV czI czSt 1 "").1
+    r.vin = some 9 ∧ r.vout = some (161/20) ∧ r.iin = some 1 ∧ r.iout = some 1 ∧ r.pwr = some 9 ∧
+    r.loss = some 1 ∧ lawShift czSys "" czV czV' czI czSt 1 = 0 := by
+  refine ⟨by decide +kernel, by decide +kernel, by decide +kernel, by decide +kernel, by decide +kernel,
+    by decide +kernel, ?_⟩
+  have e : czSys.backAt "" czV' czI czSt 1 = czSys.backAt "" czV czI czSt 1 := by decide +kernel
+  unfold lawShift; rw [e]; simp
+example : |(9 : ℚ) - 1 - |(161/20 : ℚ)| * 1| = 1/20 ∧
+    rowTol czCfg |(9 : ℚ)| (161/20) 1 1 = 1705001/9900000 := by
+  constructor
+  · norm_num [abs_of_nonneg, abs_of_neg]
+  · norm_num [rowTol, tolI, tolV, czCfg, abs_of_nonneg]
+
+/-- `row_power_defect_bound_source_partial` applies to the Source row -/
+example := row_power_defect_bound_source_partial czSys czCfg czTol "" czV czI czSt czV' czSt czConv 25 0 czN0
+  (by decide) rfl rfl rfl (czOK.phys 0 czN0 rfl) (Or.inl (by simp [czN0, czSrc])) ""
+
+/-- `table_balance_defect_bound_partial` applies to the off state … -/
+example := table_balance_defect_bound_partial czSys czWF czNoMux czOK czCfg czTol "" czV czI czSt czV' czSt czConv 25
+/-- … whose table is off balance by 401/40000 W: 10.05 W ≠ 8.05 W + (1.010025 W + 1 W) -/
+example :
+    let rows := czSys.compRows "" 25 czV czI czSt
+    ((rows.filter (·.typ == "SOURCE")).map rP).sum = 201/20 ∧
+    ((rows.filter (·.typ == "LOAD")).map fun r => rP r + rL r).sum = 161/20 ∧
+    ((rows.filter (·.typ != "LOAD")).map rL).sum = 80401/40000 := by
+  decide +kernel
+
+theorem czFree : ∀ n nd, czSys.node? n = some nd → nd.comp.kind.ctype ≠ .LOAD → nd.comp.kind ≠ .source →
+    CurrVinFree nd.comp := by
+  intro n nd h hl hs
+  rcases czNodes n nd h with ⟨rfl, rfl⟩ | ⟨rfl, rfl⟩ | ⟨rfl, rfl⟩
+  · simp [czN0, czSrc] at hs
+  · exact currVinFree_of_par _ (by simp [czN1, czRes]) (by simp [czN1, czRes])
+  · simp [czN2, czLd, Kind.ctype] at hl
+
+/-- `balance_defect_small` applies (`atol = 0`, `ε = 1/100`) -/
+example := balance_defect_small czSys czWF czNoMux czOK czFree czCfg0 (1/100) (by norm_num) (by norm_num) rfl rfl rfl
+  "" czV czI czSt czV' czSt czConv0 25
+
+/-- what the model's `solvePhase` itself returns for the system (after 4 sweeps: the exact steady state) is a
+    converged state: `solvePhase_convAt` applies -/
+def czOut : SolveOut ℚ := ⟨#[9, 8, 0], #[1, 1, 1], 4, #[[false], [false], [false]]⟩
+theorem czSolve : czSys.solvePhase czCfg "" = .ok czOut := by decide +kernel
+example := solvePhase_convAt czSys czWF czOK.phys czCfg "" czPV czOut czSolve (Or.inl (by decide))
+example := solve_table_balance_defect_bound_partial czSys czWF czOK czCfg czTol "" czPV czOut czSolve
+  (Or.inl (by decide)) 25
+/-- the flag condition on the initial state holds here too (no source is off) -/
+example : ∀ n, sget (czSys.init "").2.2 n = true → vget (czSys.init "").1 n = 0 := by
+  intro n h
+  rcases n with _ | _ | _ | n
+  · revert h; decide +kernel
+  · revert h; decide +kernel
+  · revert h; decide +kernel
+  · simp [vget, SSys.init, czSys, SSys.hidx]
+
+/-! with a PMux: Source(10 V), Source(5 V) → PMux(rs 1 Ω) → ILoad(2 A) (`mxSys` of Props/C02Table), the mux
+    output reading 8.05 V instead of 8 V -/
+
+def mzV : Vec ℚ := #[10, 5, 161/20, 0]
+theorem mzNoFlag (n : Nat) : sget mxSt n = false := by
+  rcases n with _ | _ | _ | _ | n
+  · rfl
+  · rfl
+  · rfl
+  · rfl
+  · simp [sget, mxSt]
+theorem mzInn (m : Nat) : 0 ≤ vget mxI m := by
+  rcases m with _ | _ | _ | _ | m
+  · decide +kernel
+  · decide +kernel
+  · decide +kernel
+  · decide +kernel
+  · simp [vget, mxI]
+theorem mzConv : ConvAt mxSys czCfg "" mzV mxI mxSt mxV mxSt where
+  fwd := by decide +kernel
+  vsize := rfl
+  isize := rfl
+  exit := by decide +kernel
+  inn := mzInn
+  flag := by intro n h; rw [mzNoFlag n] at h; cases h
+  srcFlag := by intro n nd _ _ h; rw [mzNoFlag n] at h; cases h
+
+example := table_balance_defect_bound_mux_partial mxSys mxWF mxOK czCfg czTol "" mzV mxI mxSt mxV mxSt mzConv 25
+example := row_power_defect_bound_mux mxSys czCfg czTol "" mzV mxI mxSt mxV mxSt mzConv 25 2 mxN2 (by decide) rfl rfl
+  (by simp [mxN2]) (mxOK.phys 2 mxN2 rfl) ""
+
+/-! with a Converter: Source(10 V, 1 Ω) → Converter(5 V, eff 4/5) → ILoad(1 A), `atol = 0`, `ε = 1/100`.
+    Off state: the source reads 9.4 V (law: 10 − 2/3), the currents 0.67 A / 0.6667 A / 1 A; the Converter's
+    current law moves from 5/(9.4·0.8) to 5/(9.333·0.8) under one more sweep: a non-zero law shift. -/
+
+def cvSrc : Comp ℚ := { name := "S", kind := .source, par := .const 0, vo := 10, rs := 1 }
+def cvCv : Comp ℚ := { name := "C", kind := .converter, par := .const (4/5), vo := 5 }
+def cvN0 : SNode ℚ := { comp := cvSrc, parents := [], childs := [1], pconf := .names [] }
+def cvN1 : SNode ℚ := { comp := cvCv, parents := [0], childs := [2], pconf := .names [] }
+def cvN2 : SNode ℚ := { comp := czLd, parents := [1], childs := [] }
+def cvSys : SSys ℚ := { nodes := #[some cvN0, some cvN1, some cvN2], topo := [0, 1, 2] }
+def cvV : Vec ℚ := #[47/5, 5, 0]
+def cvI : Vec ℚ := #[67/100, 2/3, 1]
+def cvV' : Vec ℚ := #[28/3, 5, 0]
+
+theorem cvNodes (n : Nat) (nd : SNode ℚ) (h : cvSys.node? n = some nd) :
+    (n = 0 ∧ nd = cvN0) ∨ (n = 1 ∧ nd = cvN1) ∨ (n = 2 ∧ nd = cvN2) := by
+  rcases n with _ | _ | _ | n
+  · have h2 : cvSys.node? 0 = some cvN0 := rfl
+    rw [h2] at h; exact Or.inl ⟨rfl, (Option.some.inj h).symm⟩
+  · have h2 : cvSys.node? 1 = some cvN1 := rfl
+    rw [h2] at h; exact Or.inr (Or.inl ⟨rfl, (Option.some.inj h).symm⟩)
+  · have h2 : cvSys.node? 2 = some cvN2 := rfl
+    rw [h2] at h; exact Or.inr (Or.inr ⟨rfl, (Option.some.inj h).symm⟩)
+  · have h2 : cvSys.node? (n + 3) = none := by simp [SSys.node?, cvSys]
+    rw [h2] at h; cases h
+
+theorem cvWF : TreeWF cvSys where
+  nodup := by decide
+  live := by
+    intro n
+    rcases n with _ | _ | _ | n
+    · decide
+    · decide
+    · decide
+    · have h2 : cvSys.node? (n + 3) = none := by simp [SSys.node?, cvSys]
+      rw [h2]; simp [cvSys]
+  bound := by decide
+  order := by
+    intro p c pd h hc
+    rcases cvNodes p pd h with ⟨rfl, rfl⟩ | ⟨rfl, rfl⟩ | ⟨rfl, rfl⟩ <;>
+      simp [cvN0, cvN1, cvN2] at hc <;> (try subst hc) <;> decide
+  parLive := by
+    intro n nd h p hp
+    rcases cvNodes n nd h with ⟨rfl, rfl⟩ | ⟨rfl, rfl⟩ | ⟨rfl, rfl⟩ <;>
+      simp [cvN0, cvN1, cvN2] at hp <;> subst hp <;> rfl
+  chLive := by
+    intro n nd h c hc
+    rcases cvNodes n nd h with ⟨rfl, rfl⟩ | ⟨rfl, rfl⟩ | ⟨rfl, rfl⟩ <;>
+      simp [cvN0, cvN1, cvN2] at hc <;> (try subst hc) <;> rfl
+  link := by
+    intro p c pd cd hp hc
+    rcases cvNodes p pd hp with ⟨rfl, rfl⟩ | ⟨rfl, rfl⟩ | ⟨rfl, rfl⟩ <;>
+      rcases cvNodes c cd hc with ⟨rfl, rfl⟩ | ⟨rfl, rfl⟩ | ⟨rfl, rfl⟩ <;>
+      simp [cvN0, cvN1, cvN2]
+  chNodup := by
+    intro n nd h
+    rcases cvNodes n nd h with ⟨rfl, rfl⟩ | ⟨rfl, rfl⟩ | ⟨rfl, rfl⟩ <;> simp [cvN0, cvN1, cvN2]
+  parNodup := by
+    intro n nd h
+    rcases cvNodes n nd h with ⟨rfl, rfl⟩ | ⟨rfl, rfl⟩ | ⟨rfl, rfl⟩ <;> simp [cvN0, cvN1, cvN2]
+  rootSrc := by
+    intro n nd h
+    rcases cvNodes n nd h with ⟨rfl, rfl⟩ | ⟨rfl, rfl⟩ | ⟨rfl, rfl⟩ <;>
+      simp [cvN0, cvN1, cvN2, cvSrc, cvCv, czLd]
+  muxOnly := by
+    intro n nd h hl
+    rcases cvNodes n nd h with ⟨rfl, rfl⟩ | ⟨rfl, rfl⟩ | ⟨rfl, rfl⟩ <;> simp [cvN0, cvN1, cvN2] at hl
+  loadLeaf := by
+    intro n nd h hl
+    rcases cvNodes n nd h with ⟨rfl, rfl⟩ | ⟨rfl, rfl⟩ | ⟨rfl, rfl⟩ <;>
+      simp [cvN0, cvN1, cvN2, cvSrc, cvCv, czLd, Kind.ctype] at hl ⊢
+
+theorem cvNoMux : NoMux cvSys := by
+  intro n nd h
+  rcases cvNodes n nd h with ⟨rfl, rfl⟩ | ⟨rfl, rfl⟩ | ⟨rfl, rfl⟩ <;>
+    simp [cvN0, cvN1, cvN2, cvSrc, cvCv, czLd]
+
+theorem cvOK : CompsOK cvSys where
+  phys := by
+    intro n nd h
+    rcases cvNodes n nd h with ⟨rfl, rfl⟩ | ⟨rfl, rfl⟩ | ⟨rfl, rfl⟩ <;>
+      constructor <;>
+      simp [cvN0, cvN1, cvN2, cvSrc, cvCv, czLd, Comp.muxRs, Param.Nonneg, Param.interp] <;> norm_num
+  f01 := by
+    intro n nd h hk
+    rcases cvNodes n nd h with ⟨rfl, rfl⟩ | ⟨rfl, rfl⟩ | ⟨rfl, rfl⟩ <;>
+      simp [cvN0, cvN1, cvN2, cvSrc, cvCv, czLd] at hk ⊢
+  conv := by
+    intro n nd h hk
+    rcases cvNodes n nd h with ⟨rfl, rfl⟩ | ⟨rfl, rfl⟩ | ⟨rfl, rfl⟩ <;>
+      simp [cvN0, cvN1, cvN2, cvSrc, cvCv, czLd] at hk ⊢
+
+theorem cvInn (m : Nat) : 0 ≤ vget cvI m := by
+  rcases m with _ | _ | _ | m
+  · decide +kernel
+  · decide +kernel
+  · decide +kernel
+  · simp [vget, cvI]
+
+theorem cvConv : ConvAt cvSys czCfg0 "" cvV cvI czSt cvV' czSt where
+  fwd := by decide +kernel
+  vsize := rfl
+  isize := rfl
+  exit := by decide +kernel
+  inn := cvInn
+  flag := by intro n h; rw [czNoFlag n] at h; cases h
+  srcFlag := by intro n nd _ _ h; rw [czNoFlag n] at h; cases h
+
+theorem cvFree : ∀ n nd, cvSys.node? n = some nd → nd.comp.kind.ctype ≠ .LOAD → nd.comp.kind ≠ .source →
+    CurrVinFree nd.comp ∨ (nd.comp.kind = .converter ∧ ParVinFree nd.comp.par) := by
+  intro n nd h hl hs
+  rcases cvNodes n nd h with ⟨rfl, rfl⟩ | ⟨rfl, rfl⟩ | ⟨rfl, rfl⟩
+  · simp [cvN0, cvSrc] at hs
+  · exact Or.inr ⟨rfl, parVinFree_const _⟩
+  · simp [cvN2, czLd, Kind.ctype] at hl
+
+/-- `balance_defect_small_conv` applies; the Converter's law shift is not 0 here -/
+example := balance_defect_small_conv cvSys cvWF cvNoMux cvOK cvFree czCfg0 (1/100) (by norm_num) (by norm_num)
+  rfl rfl rfl "" cvV cvI czSt cvV' czSt cvConv 25
+example : cvSys.backAt "" cvV' cvI czSt 1 = 75/112 ∧ cvSys.backAt "" cvV cvI czSt 1 = 125/188 := by
+  decide +kernel
+example := shiftW_converter_bound cvSys cvWF cvNoMux "" cvV cvV' cvI czSt cvInn 1 0 cvN1 rfl rfl rfl
+  (cvOK.phys 1 cvN1 rfl) (parVinFree_const _) (Or.inl (by decide +kernel))
+
+/-! the exclusions of `CompsOK` are needed here too: without them the bound fails already on an exact steady
+    state with all tolerances 0 (finding F01: Source(−12 V, 1 Ω) → ILoad(1 A); `f1Sys` of Props/C02Table) -/
+
+/-- `table_balance_defect_bound_mux_partial` claimed for every well-formed tree with accepted parameters -/
+def table_balance_defect_bound_full : Prop :=
+  ∀ (s : SSys ℚ), TreeWF s → (∀ n nd, s.node? n = some nd → nd.comp.Phys) →
+    ∀ (cfg : Cfg ℚ), TolOK cfg → ∀ (ph : String) (v i : Vec ℚ) (st : St) (v' : Vec ℚ) (st' : St),
+      ConvAt s cfg ph v i st v' st' → ∀ ta : ℚ,
+      |(((s.compRows ph ta v i st).filter (·.typ == "SOURCE")).map rP).sum
+        - ((((s.compRows ph ta v i st).filter (·.typ == "LOAD")).map fun r => rP r + rL r).sum
+            + (((s.compRows ph ta v i st).filter (·.typ != "LOAD")).map rL).sum)|
+      ≤ ((s.compRows ph ta v i st).map (rowTolRow cfg)).sum + (s.topo.map (shiftW s ph v v' i st)).sum
+          + (s.topo.map (linkM s v i st)).sum
+
+def f1Cfg : Cfg ℚ := ⟨0, 0, 0, 100⟩
+theorem f1Conv : ConvAt f1Sys f1Cfg "" #[-13, 0] #[1, 1] #[[false], [false]] #[-13, 0] #[[false], [false]] where
+  fwd := by decide +kernel
+  vsize := rfl
+  isize := rfl
+  exit := by decide +kernel
+  inn := by
+    intro m
+    rcases m with _ | _ | m
+    · decide +kernel
+    · decide +kernel
+    · simp [vget]
+  flag := by
+    intro n h
+    rcases n with _ | _ | n
+    · revert h; decide
+    · revert h; decide
+    · simp [sget] at h
+  srcFlag := by
+    intro n nd _ _ h
+    rcases n with _ | _ | n
+    · exact absurd h (by decide)
+    · exact absurd h (by decide)
+    · simp [sget] at h
+
+theorem table_balance_defect_bound_full_fails : ¬ table_balance_defect_bound_full := by
+  intro h
+  have := h f1Sys f1WF f1Phys f1Cfg ⟨by decide +kernel, by decide +kernel, by decide +kernel, by decide +kernel⟩
+    "" #[-13, 0] #[1, 1] #[[false], [false]] #[-13, 0] #[[false], [false]] f1Conv 25
+  revert this
+  decide +kernel
+
+end Examples
 
 end C02
 end SysLoss
